@@ -8,6 +8,7 @@ import pwd
 import stat
 import struct
 import subprocess
+import tempfile
 import time
 import zipfile
 
@@ -330,6 +331,27 @@ def eval_group(env, group, tier):
             exp = {n: v[1:] for n, v in exp.items()}
             rows = query_rows(env, root, cols, extra=' maxdepth 1')
             row_outcomes(group, rows, exp, cols, outs, 'lstat')
+            # time stamps that no calendar date can express (a tmpfs stores them): the date columns are empty, the other
+            # columns and rows are as usual
+            shm = tempfile.mkdtemp(prefix='fsx-c04-', dir='/dev/shm') if os.path.isdir('/dev/shm') and os.access('/dev/shm', os.W_OK) else None
+            if shm:
+                try:
+                    for n, ts in (('far', 8210298412800), ('farther', 9000000000000), ('ok', 1600000000)):
+                        open(os.path.join(shm, n), 'w').close()
+                        os.utime(os.path.join(shm, n), (ts, ts))
+                    if int(os.lstat(os.path.join(shm, 'far')).st_mtime) == 8210298412800:
+                        o = env.run(['name, size, modified, accessed from . into list'], cwd=shm, timeout=8.0)
+                        rws = o.rows(4) or []
+                        r = {'case': {'group': {k_: v_ for k_, v_ in group.items() if k_ != 'only'}, 'row': '@far-future'}, 'layer': 'lstat', 'nt': True}
+                        want = {'far': ('0', '', ''), 'farther': ('0', '', ''), 'ok': ('0', '2020-09-13 12:26:40', '2020-09-13 12:26:40')}
+                        if o.panicked or o.rc != 0 or {x[0]: tuple(x[1:]) for x in rws} != want:
+                            r.update(status='viol', cls='lstat:modified-out-of-range', detail=dict(o.brief(), expected=want), sig=('far',))
+                        else:
+                            r.update(status='ok', sig=('far',))
+                        if group.get('only') in (None, '@far-future'):
+                            outs.append(r)
+                finally:
+                    subprocess.run(['rm', '-rf', shm])
         elif kind == 'caps':
             tree, exp = {}, {}
             lo, hi = group['range']
